@@ -3,8 +3,10 @@ package gosym
 // The harness API (package zzverif) as engine intrinsics.
 
 import (
+	"encoding/hex"
 	"fmt"
 	"math/big"
+	"sort"
 	"strings"
 )
 
@@ -98,6 +100,7 @@ func init() {
 	reg(zz+"NondetAddr", func(c *CallCtx, a []Value) []Outcome {
 		// canonical bech32 string of an arbitrary 20-byte address
 		b := c.E.nondet(c.S, constStr(a[0], "tag"), SStr, "addrbytes")
+		noteAddr(c.S.W, b32encT(b), b)
 		return []Outcome{{Cond: Eq(Len(b), MkI(20)), Ret: b32encT(b)}}
 	})
 	reg(zz+"NondetTime", func(c *CallCtx, a []Value) []Outcome {
@@ -138,7 +141,7 @@ func init() {
 		first := c.E.CoverModels[id] == nil
 		c.E.mu.Unlock()
 		if first {
-			v, m, _ := c.E.PF.Check(c.E.withEvals(c.S, c.S.pcTerms()), c.E.Cfg.AssertMs, true)
+			v, m, _ := c.S.pf.Check(c.E.withEvals(c.S, c.S.pcTerms()), c.E.Cfg.AssertMs, true)
 			if v == Sat {
 				sc := c.E.scenario(c.S, m, id)
 				c.E.mu.Lock()
@@ -320,7 +323,7 @@ func (e *Engine) checkObligation(s *State, id string, cond *Term) {
 		r.Verdict, r.Solver = "discharged", "simp"
 	} else {
 		asserts := append(s.pcTerms(), Not(cond))
-		v, m, who := e.PF.Check(e.withEvals(s, asserts), e.Cfg.AssertMs, true)
+		v, m, who := s.pf.Check(e.withEvals(s, asserts), e.Cfg.AssertMs, true)
 		r.Solver = who
 		switch v {
 		case Unsat:
@@ -369,6 +372,49 @@ func (e *Engine) scenario(s *State, m Model, ob string) *Scenario {
 		}
 		sc.Nondet[en.Tag] = smtToGo(raw, en.T.Sort)
 		sc.Order = append(sc.Order, en.Tag)
+	}
+	// abstract address strings -> valid bech32 of the bytes the model decodes them to
+	rename := map[string]string{}
+	for i, en := range s.W.Evals {
+		if strings.HasPrefix(en.Tag, "addr|") && en.Kind == "app" && i+1 < len(s.W.Evals) {
+			rs, ok1 := m[fmt.Sprintf("evalx.%d", i)]
+			rb, ok2 := m[fmt.Sprintf("evalx.%d", i+1)]
+			if ok1 && ok2 {
+				str, by := string(smtUnescape(rs)), smtUnescape(rb)
+				if len(by) == 20 && len(str) == 42 {
+					rename[str] = Bech32Encode("jkl", by)
+				}
+			}
+		}
+	}
+	if len(rename) > 0 {
+		// two spellings of the same bytes: keep them distinct by upper-casing the later ones
+		seen := map[string]string{}
+		var olds []string
+		for o := range rename {
+			olds = append(olds, o)
+		}
+		sort.Strings(olds)
+		for _, o := range olds {
+			n := rename[o]
+			if prev, dup := seen[n]; dup && prev != o {
+				rename[o] = strings.ToUpper(n)
+			} else {
+				seen[n] = o
+			}
+		}
+		for tag, v := range sc.Nondet {
+			if mm, ok := v.(map[string]interface{}); ok {
+				if hx, ok := mm["hex"].(string); ok {
+					bs, _ := hex.DecodeString(hx)
+					str := string(bs)
+					for _, o := range olds {
+						str = strings.ReplaceAll(str, o, rename[o])
+					}
+					sc.Nondet[tag] = map[string]interface{}{"hex": fmt.Sprintf("%x", str)}
+				}
+			}
+		}
 	}
 	// table bases and predicates
 	var cur *BalRec
